@@ -52,6 +52,7 @@ extern "C" int LLVMFuzzerTestOneInput(const uint8_t *data, size_t size) {
 	if (r.kind == RK_LITERAL) r.kind = RK_RANDOM;
 	if (c.chance(100)) r.kind = RK_RANDOM;          // incompressible: the case the bound clause is about
 	std::vector<uint8_t> in = expand(r);
+	if (!g.pdict.empty() && c.rare(140) && ec::input_from_pdict_tail(c, g, in, 1u << 15)) { r.len = (uint32_t)in.size(); r.seed = hash_bytes(in.data(), in.size()); count("input_from_preset_dict_tail"); }
 	g.prepare_for_len(in.size()); ec::govern_cost(g, in.size());
 	drv::Schedule esch = drv::draw_schedule(c, true);
 	set_desc("{\"cfg\":" + g.describe() + ",\"input\":" + r.describe() + ",\"enc_schedule\":" + esch.describe() + "}");
